@@ -7,7 +7,7 @@ MODES = ['jit', 'nojit']
 MODES_THOROUGH = ['jit', 'nojit', 'bounds']
 LEVEL = 'proof'
 HANG_TIMEOUT_S = 3.0
-TIMEOUT_S = 30.0
+TIMEOUT_S = 10.0
 
 KINDS = ['gen', 'lu', 'ru', 'bu']          # general / left unique / right unique / both unique
 INV32, INV64 = (1 << 31) - 1, 1 << 62
